@@ -346,7 +346,9 @@ def _forms(C):
             CTX_pre_extra = []
             tag = f"{form}.deg={deg}.n={n_in}.start={start}.anchor={anchor_kind}"
 
-            def on_path(p, tag=tag, form=form):
+            params = {"deg": deg, "n_in": n_in, "start": start, "anchor": anchor_kind}
+
+            def on_path(p, tag=tag, form=form, params=params):
                 C.paths += 1
                 if p.status != "ok":
                     C.note_inconclusive(tag, f"aborted: {p.out}")
@@ -357,15 +359,17 @@ def _forms(C):
                 P1, Q1 = np.asarray(o1._position, dtype=object), np.asarray(o1._orientation.as_quat(), dtype=object)
                 P2, Q2 = np.asarray(o2._position, dtype=object), np.asarray(o2._orientation.as_quat(), dtype=object)
                 if P1.shape != P2.shape or Q1.shape != Q2.shape or not _state_ok(o1):
-                    C.obligations.append({"name": tag + ".length", "status": "sat", "note": f"{P1.shape} vs {P2.shape}"})
-                    C.candidates.append({"key": f"C09|rotate_from_{form}|length", "replay": {"kind": "form", "form": form}})
+                    # the two objects end with different path lengths on this path: ask for a model of the path condition and replay it
+                    pc_inputs = [z3.Real(n) for n in sorted({str(x) for e in p.pc for x in _free_inputs(e)})]
+                    C.oblige(tag + f".length[{P1.shape} vs {P2.shape}]", p.pc + unit + CTX_pre_extra, z3.BoolVal(True), inputs=pc_inputs, nice=False, quat_groups=qg,
+                             on_model=lambda env, form=form, params=params: {"key": f"C09|rotate_from_{form}|length", "replay": dict(params, kind="form", form=form, env=env)})
                     return
                 viol = z3.Or(neq_any(P1, P2), neq_rot(Q1, Q2))
                 assume = p.pc + unit + CTX_pre_extra
                 viol, merged, failed = C.merge_uf(assume, viol, timeout=5000)
                 all_inputs = [z3.Real(n) for n in sorted({str(x) for e in assume + [viol] for x in _free_inputs(e)})]
                 C.oblige(tag, assume, viol, inputs=all_inputs, nice=False, key=f"C09|rotate_from_{form}|differs", quat_groups=qg,
-                         on_model=lambda env, form=form: {"key": f"C09|rotate_from_{form}|differs", "replay": {"kind": "form", "form": form}},
+                         on_model=lambda env, form=form, params=params: {"key": f"C09|rotate_from_{form}|differs", "replay": dict(params, kind="form", form=form, env=env)},
                          sample=f"rotate_from_{form}(...) leaves the object in the same state as rotate(R.from_{form}(...)) with the same anchor/start")
 
             try:
@@ -593,6 +597,41 @@ def _replay_form(spec):
 
     rng = np.random.default_rng(23)
     msgs = []
+    env = spec.get("env") or {}
+    if env and spec.get("form") in ("rotvec", "angax", "euler", "eulerI", "mrp") and "n_in" in spec:
+        # the solver's model first: the same call with the model's values of the rotation input (e.g. an angle that is exactly zero)
+        form, deg, n_in, start = spec["form"], spec.get("deg"), spec["n_in"], spec["start"]
+        g = lambda k, d=0.0: float(env[k]) if env.get(k) is not None else d
+        anchor = {"none": None, "zero": 0, "single": tuple(g(f"a_{c}", 0.25 * (c + 1)) for c in range(3))}[spec.get("anchor", "none")]
+        P = np.array([[g(f"op_{i}_{c}", 0.5 * i - 0.3 * c) for c in range(3)] for i in range(2)])
+        Q = R.random(2, random_state=5)
+        mk = lambda: magpylib.Sensor(position=P, orientation=Q)
+        vec = lambda nm, k: np.array([g(f"{nm}_{c}") for c in range(k)]) if n_in is None else np.array([[g(f"{nm}_{i}_{c}") for c in range(k)] for i in range(n_in)])
+        try:
+            if form == "rotvec":
+                v = vec("v", 3)
+                a, b = mk().rotate_from_rotvec(v, anchor=anchor, start=start, degrees=deg), mk().rotate(R.from_rotvec(v, degrees=deg), anchor=anchor, start=start)
+            elif form == "mrp":
+                v = vec("v", 3)
+                a, b = mk().rotate_from_mrp(v, anchor=anchor, start=start), mk().rotate(R.from_mrp(v), anchor=anchor, start=start)
+            elif form == "angax":
+                ax = np.array([g(f"ax_{c}", 1.0) for c in range(3)])
+                ax = ax if np.linalg.norm(ax) > 0 else np.array([0.0, 0.0, 1.0])
+                ang = 30.0 if n_in is None else np.array([g(f"ang_{i}") for i in range(n_in)])
+                angr = np.deg2rad(ang) if deg else ang
+                rv = ax / np.linalg.norm(ax) * angr if n_in is None else np.outer(angr, ax / np.linalg.norm(ax))
+                a, b = mk().rotate_from_angax(ang, ax, anchor=anchor, start=start, degrees=deg), mk().rotate(R.from_rotvec(rv), anchor=anchor, start=start)
+            else:
+                seq = ("XYZ" if form == "eulerI" else "xyz") if n_in is None else "z"
+                e = vec("e", 3) if n_in is None else vec("e", 1)
+                a, b = mk().rotate_from_euler(e, seq, anchor=anchor, start=start, degrees=deg), mk().rotate(R.from_euler(seq, e, degrees=deg), anchor=anchor, start=start)
+            if a._position.shape != b._position.shape or not rel_close(a._position, b._position, 1e-9, 1e-12) or \
+                    np.max((a._orientation * b._orientation.inv()).magnitude()) > 1e-9:
+                msgs.append(f"rotate_from_{form}(degrees={deg}, start={start}, anchor={anchor}, n={n_in}) with the model's input values "
+                            f"{ {k: v for k, v in env.items() if k.split('_')[0] in ('v', 'ang', 'ax', 'e')} } differs from rotate(R.from_{form}(...)): "
+                            f"path lengths {len(a._position)} vs {len(b._position)}")
+        except Exception as e:  # noqa
+            return True, f"rotate_from_{form} raised {type(e).__name__}: {e}"
     for deg in (True, False):
         for start, anchor in (("auto", None), (1, (0.3, -0.2, 0.5)), (-1, 0)):
             for n_in in (None, 2, 1):
